@@ -47,11 +47,10 @@ def runNamespace (args : List String) : String :=
         | .error e => (acc.1, acc.2 ++ ["no:" ++ showNsErr e])) (initial, [])
       let vis := visible S
       let all := vis.map fun n => ({ name := n, subscribed := false, ent := some [] } : MBox)
-      let listing := match getMatches all [] ['*'] d false with
-        | none => "panic"
-        | some m =>
-          if m.isEmpty then "-" else
-          ";".intercalate (sortStr (m.map fun (n, a) => s!"{Hex.encode n}={match a with | Atts.noselect => "noselect" | Atts.real _ => "real"}"))
+      let m := getMatches all [] ['*'] d false
+      let listing :=
+        if m.isEmpty then "-" else
+        ";".intercalate (sortStr (m.map fun (n, a) => s!"{Hex.encode n}={match a with | Atts.noselect => "noselect" | Atts.real _ => "real"}"))
       s!"{if rs.isEmpty then "-" else ",".intercalate rs} names={Hex.encodeList (sortNames vis)} list={listing}"
     | _, _ => "bad-op"
   | _ => "bad-op"
